@@ -70,6 +70,15 @@ def run(rep):
         for cfg in CFGS:
             rs = c05.renderings(c["line"], cfg, gi, False)
             add(c["line"], c["expected"], cfg, rs[gi % len(rs)][0], rs[gi % len(rs)][1])
+    # percentages of a thousand and more are always taken, in every spelling with group separators (one, two, with a fraction)
+    for gi, c in enumerate(sorted(g.cases, key=forms.canon)):
+        if "p" in c["line"] and abs(render.q_fraction(c["line"]["p"])) >= 1000:
+            for cfg in CFGS:
+                if not cfg["tho"]:
+                    continue
+                for var, text in c05.renderings(c["line"], cfg, gi, True):
+                    if "grouped" in var:
+                        add(c["line"], c["expected"], cfg, var, text)
     # money (lines under configured and under exact rates)
     g = tlc("Gen_Money", "Gen_Money", workers=8, timeout=2400, env={"CONSTS": c06.consts()}, heap="8g")
     rep.add_tlc("Gen_Money", g)
